@@ -109,7 +109,7 @@ func verifFloorFrac(ticks uint32, frac float64, total float64, what string) {
 
 func verifC28(mode int) {
 	rates := [...]uint32{8000, 48000, 90000}
-	rate := rates[verif.Choice("rate", len(rates))]
+	rate := rates[verif.Choice("rate", verif.Param("rate_count", len(rates)))]
 	var r float64
 	var durNs int64
 	drops := uint16(0)
@@ -120,9 +120,14 @@ func verifC28(mode int) {
 		verif.Assume(r >= 0)
 		verif.Assume(r < 1)
 		// duration = sec s + nsec ns (every duration up to max_duration_s+1 s)
-		sec := verif.IntRange("duration_sec", 0, verif.Param("max_duration_s", 10))
-		nsec := verif.IntRange("duration_nsec", 0, 999999999)
-		durNs = int64(sec)*1000000000 + int64(nsec)
+		if verif.Param("fixed_duration_ns", 0) != 0 {
+			// quick tier of the drop case: one duration with a fractional tick count, every remainder
+			durNs = int64(verif.Param("fixed_duration_ns", 0))
+		} else {
+			sec := verif.IntRange("duration_sec", 0, verif.Param("max_duration_s", 10))
+			nsec := verif.IntRange("duration_nsec", 0, 999999999)
+			durNs = int64(sec)*1000000000 + int64(nsec)
+		}
 		if mode == 1 {
 			drops = uint16(1 + verif.Choice("drops", verif.Param("max_drops", 3)))
 		}
